@@ -211,7 +211,10 @@ class NetworkGraph(AbstractBaseIR):
                 for s, t, e in matrix_edges + global_edges:
                     d = self.edges[s, t, e].get('delay')
                     v = self.edges[s, t, e].get('spread')
-                    if d is not None and d > self.step_size:
+                    # as for scalar edges, a delay of at most one integration step is neglected: a plain delay under a
+                    # fixed step counts in (rounded) steps, any other delay in time units
+                    in_steps = not (v or dde_approx or self.step_size_adaptation)
+                    if d is not None and (int(np.round(d / self.step_size)) > 1 if in_steps else d > self.step_size):
                         # every delayed connectivity reading this variable needs a buffer of its own
                         self._add_matrix_delay(node_name, op_name, var_name, (s, t, e),
                                                d, v, dde_approx=dde_approx,
